@@ -47,6 +47,8 @@ func genC19(c *Ctx) {
 	c19RlweNew(c)
 	c19Schemes(c)
 	c19Derived(c)
+	c19DerivedAccessors(c)
+	c19Codecs(c)
 	c19Exported(c)
 	c19Table(c)
 	c19Hangs(c) // inputs on which the unpatched code never returned
